@@ -657,20 +657,20 @@ Qed.
 
 (* --- runs of the automaton over blocks of logical lines *)
 Definition reaches (s1 : pstate * list Z) (ls : list mline) (s2 : pstate * list Z) : Prop :=
-  forall rest ac i, exists ac' j, machine T (fst s1) (snd s1) ac i (ls ++ rest) = machine T (fst s2) (snd s2) ac' j rest.
+  forall rest ac i, exists ac', machine T (fst s1) (snd s1) ac i (ls ++ rest) = machine T (fst s2) (snd s2) ac' (i + length ls) rest.
 
 Lemma reaches_nil s : reaches s [] s.
-Proof. intros rest ac i. exists ac, i. reflexivity. Qed.
+Proof. intros rest ac i. exists ac. cbn [length]. rewrite Nat.add_0_r. reflexivity. Qed.
 Lemma reaches_trans s1 s2 s3 l1 l2 : reaches s1 l1 s2 -> reaches s2 l2 s3 -> reaches s1 (l1 ++ l2) s3.
 Proof.
-  intros H1 H2 rest ac i. destruct (H1 (l2 ++ rest) ac i) as [ac1 [j1 E1]]. destruct (H2 rest ac1 j1) as [ac2 [j2 E2]].
-  exists ac2, j2. rewrite <- app_assoc, E1, E2. reflexivity.
+  intros H1 H2 rest ac i. destruct (H1 (l2 ++ rest) ac i) as [ac1 E1]. destruct (H2 rest ac1 (i + length l1)%nat) as [ac2 E2].
+  exists ac2. rewrite <- app_assoc, E1, E2, app_length, Nat.add_assoc. reflexivity.
 Qed.
 Lemma reaches_step st stack b w st1 st2 stack2 :
   (forall ac, deliver T st ac b = SOk st1) -> on_indent st1 stack w = SOk (st2, stack2) ->
   reaches (st, stack) [{| m_body := b; m_next := Some w |}] (st2, stack2).
 Proof.
-  intros H1 H2 rest ac i. exists (is_comment b), (S i). cbn [app fst snd].
+  intros H1 H2 rest ac i. exists (is_comment b). cbn [app fst snd length]. rewrite Nat.add_1_r.
   apply (machine_step st stack ac i {| m_body := b; m_next := Some w |} rest st1 w st2 stack2 (H1 ac) eq_refl H2).
 Qed.
 
@@ -1133,36 +1133,40 @@ Proof.
     apply reach_comment_top. exact Hwf.
 Qed.
 
+Lemma tpeek_tlines ds r : tpeek r = 0 -> tpeek (tlines T st ds ++ r) = 0.
+Proof.
+  intro Hr. induction ds as [|x ds IHd]; [exact Hr|]. unfold tlines. cbn [flat_map]. fold (tlines T st ds).
+  unfold item_tlines. rewrite <- !app_assoc.
+  assert (Hb : tpeek (blanks (st_blank_top st) ++ tlines T st ds ++ r) = 0) by (rewrite tpeek_blanks; exact IHd).
+  destruct x as [d|p|c].
+  - destruct d as [n l c|n b vals attrs c|s]; cbn [decl_tlines]; rewrite <- ?app_assoc; unfold comment_tlines;
+      (destruct (clines _); [|reflexivity]); cbn [map app]; try reflexivity; rewrite r_attrs_list;
+      (destruct (attrs_list _); reflexivity).
+  - reflexivity.
+  - rewrite <- app_assoc. unfold comment_tlines. destruct (clines (Some c)); [|reflexivity]. cbn [map app tpeek]. exact Hb.
+Qed.
+
 Lemma doc_run ds : forallb (wf_item T) ds = true -> wf_adjacent ds = true -> forall acc pc,
-  match ds with it :: _ => item_pre pc it | [] => True end ->
-  exists LS acc2 pc2, tgroup cr (tlines T st ds) = LS /\ reaches (STop acc pc PaNone, [0]) LS (STop acc2 pc2 PaNone, [0])
+  match ds with it :: _ => item_pre pc it | [] => True end -> forall r, tpeek r = 0 ->
+  exists LS acc2 pc2, tgroup cr (tlines T st ds ++ r) = LS ++ tgroup cr r /\ reaches (STop acc pc PaNone, [0]) LS (STop acc2 pc2 PaNone, [0])
     /\ acc2 ++ opt_comment pc2 = acc ++ opt_comment pc ++ ds.
 Proof.
-  induction ds as [|it ds IH]; intros Hwf Hadj acc pc Hpre.
+  induction ds as [|it ds IH]; intros Hwf Hadj acc pc Hpre r Hr.
   - exists [], acc, pc. split; [reflexivity|]. split; [apply reaches_nil|]. rewrite app_nil_r. reflexivity.
   - cbn [forallb] in Hwf. apply andb_true_iff in Hwf as [Hit Hds].
     assert (Hadj' : wf_adjacent ds = true).
     { destruct it as [d|p|c]; cbn [wf_adjacent] in Hadj; try exact Hadj. destruct ds as [|[d'|p'|c'] ds']; try exact Hadj.
       apply andb_true_iff in Hadj as [_ H]. exact H. }
-    assert (Hpeek : tpeek (tlines T st ds) = 0).
-    { clear. induction ds as [|x ds IHd]; [reflexivity|]. unfold tlines. cbn [flat_map]. fold (tlines T st ds).
-      unfold item_tlines. rewrite <- app_assoc.
-      assert (Hb : tpeek (blanks (st_blank_top st) ++ tlines T st ds) = 0) by (rewrite tpeek_blanks; exact IHd).
-      destruct x as [d|p|c].
-      - destruct d as [n l c|n b vals attrs c|s]; cbn [decl_tlines]; rewrite <- ?app_assoc; unfold comment_tlines;
-          (destruct (clines _); [|reflexivity]); cbn [map app]; try reflexivity; rewrite r_attrs_list;
-          (destruct (attrs_list _); reflexivity).
-      - reflexivity.
-      - rewrite <- app_assoc. unfold comment_tlines. destruct (clines (Some c)); [|reflexivity]. cbn [map app tpeek]. exact Hb. }
-    destruct (item_run acc pc it Hit Hpre (tlines T st ds) Hpeek) as [LS1 [E1 HR1]].
+    assert (Hpeek : tpeek (tlines T st ds ++ r) = 0) by (apply tpeek_tlines; exact Hr).
+    destruct (item_run acc pc it Hit Hpre (tlines T st ds ++ r) Hpeek) as [LS1 [E1 HR1]].
     specialize (IH Hds Hadj' (fst (item_result acc pc it)) (snd (item_result acc pc it))).
     assert (Hpre' : match ds with it' :: _ => item_pre (snd (item_result acc pc it)) it' | [] => True end).
     { destruct ds as [|it' ds']; [exact I|]. destruct it' as [d'|p'|c']; cbn [item_pre]; try exact I.
       destruct it as [d|p|c]; cbn [item_result snd]; try reflexivity.
       cbn [wf_adjacent] in Hadj. apply andb_true_iff in Hadj as [H _]. intro Hn. rewrite Hn in H. discriminate. }
-    destruct (IH Hpre') as [LS2 [acc2 [pc2 [E2 [HR2 Hres]]]]].
+    destruct (IH Hpre' r Hr) as [LS2 [acc2 [pc2 [E2 [HR2 Hres]]]]].
     exists (LS1 ++ LS2), acc2, pc2. split; [|split].
-    + unfold tlines. cbn [flat_map]. fold (tlines T st ds). rewrite E1, E2. reflexivity.
+    + unfold tlines. cbn [flat_map]. fold (tlines T st ds). rewrite <- !app_assoc, E1, E2. reflexivity.
     + eapply reaches_trans; eassumption.
     + rewrite Hres. destruct it as [d|p|c]; cbn [item_result fst snd]; unfold decl_result.
       * cbn [item_pre] in Hpre. destruct (decl_comment d) eqn:Ed.
@@ -1241,33 +1245,56 @@ Definition style_cr (st : style) : list Z := if st_crlf st then [13] else [].
 Lemma render_lines st ds : render_with T st ds = flat_map (fun l => l ++ style_cr st ++ [10]) (plines T st ds).
 Proof. unfold render_with, eol, style_cr. destruct (st_crlf st); reflexivity. Qed.
 
+Definition text_of (cr : list Z) (tl : list pline) : list Z := flat_map (fun p => untag p ++ cr ++ [10]) tl.
+Definition machine0 (ls : list mline) : mres (list item) := machine T (STop [] None PaNone) [0] false 0 ls.
+
+(* parsing a text made of complete, valid tagged lines *)
+Lemma parse_tagged cr tl q tl' : cr_shape cr -> forallb pline_ok tl = true -> tl = q :: tl' -> q <> PBlank ->
+  parse_with T (text_of cr tl) =
+  match machine0 (tgroup cr tl) with
+  | MOk v => Ok v
+  | MErr i d => Error (pos_of (group T 1 (phys cr tl) []) i d)
+  end.
+Proof.
+  intros Hcr Hok_lines E Hq. unfold parse_with, text_of.
+  pose proof (split_lines (map untag tl) cr) as Hsplit. cbn zeta in Hsplit.
+  rewrite flat_map_concat_map, map_map, <- flat_map_concat_map in Hsplit.
+  destruct (split_lf (flat_map (fun p => untag p ++ cr ++ [10]) tl)) as [p ps].
+  rewrite Hsplit.
+  2:{ apply forallb_forall. intros l Hl. apply in_map_iff in Hl as [x [<- Hx]]. apply pline_nolf.
+      rewrite forallb_forall in Hok_lines. apply Hok_lines. exact Hx. }
+  2:{ destruct Hcr as [->| ->]; reflexivity. }
+  rewrite map_map. fold (phys cr tl).
+  assert (Hgm : map (l_m) (group T 1 (phys cr tl) []) = tgroup cr tl).
+  { rewrite group_mgroup. apply mgroup_tagged; assumption. }
+  rewrite E in *. cbn [phys map].
+  assert (Hnb : is_blank_piece (untag q ++ cr) = false).
+  { unfold is_blank_piece. cbn [forallb] in Hok_lines. apply andb_true_iff in Hok_lines as [Hq' _].
+    rewrite (classify_tagged cr q Hcr Hq'). destruct q; [contradiction|reflexivity|reflexivity]. }
+  rewrite Hnb. cbn [phys map] in Hgm. unfold machine0. rewrite Hgm. reflexivity.
+Qed.
+
+Lemma render_text_of st ds : render_with T st ds = text_of (style_cr st) (tlines T st ds).
+Proof.
+  rewrite render_lines. unfold text_of, plines. rewrite flat_map_concat_map, map_map, <- flat_map_concat_map. reflexivity.
+Qed.
+
+Lemma style_cr_shape st : cr_shape (style_cr st).
+Proof. unfold style_cr, cr_shape. destruct (st_crlf st); auto. Qed.
+
+Lemma wf_doc_items ds : wf_doc_with T ds = true -> forallb (wf_item T) ds = true /\ wf_adjacent ds = true /\ ds <> [].
+Proof. unfold wf_doc_with. destruct ds; [discriminate|]. intro H. apply andb_true_iff in H as [H1 H2]. repeat split; [exact H1|exact H2|discriminate]. Qed.
+
 Lemma parse_machine st ds : wf_style st = true -> wf_doc_with T ds = true ->
   parse_with T (render_with T st ds) =
-  match machine T (STop [] None PaNone) [0] false 0 (tgroup (style_cr st) (tlines T st ds)) with
+  match machine0 (tgroup (style_cr st) (tlines T st ds)) with
   | MOk v => Ok v
   | MErr i d => Error (pos_of (group T 1 (phys (style_cr st) (tlines T st ds)) []) i d)
   end.
 Proof.
-  intros Hst Hwf. assert (Hitems : forallb (wf_item T) ds = true).
-  { unfold wf_doc_with in Hwf. destruct ds; [discriminate|]. apply andb_true_iff in Hwf as [H _]. exact H. }
-  pose proof (tlines_ok st ds Hst Hitems) as Hok_lines.
-  assert (Hcr : cr_shape (style_cr st)) by (unfold style_cr, cr_shape; destruct (st_crlf st); auto).
-  unfold parse_with. rewrite render_lines.
-  pose proof (split_lines (plines T st ds) (style_cr st)) as Hsplit. cbn zeta in Hsplit.
-  destruct (split_lf (flat_map (fun l => l ++ style_cr st ++ [10]) (plines T st ds))) as [p ps].
-  rewrite Hsplit.
-  2:{ unfold plines. apply forallb_forall. intros l Hl. apply in_map_iff in Hl as [q [<- Hq]]. apply pline_nolf.
-      rewrite forallb_forall in Hok_lines. apply Hok_lines. exact Hq. }
-  2:{ unfold style_cr. destruct (st_crlf st); reflexivity. }
-  unfold plines. rewrite map_map. fold (phys (style_cr st) (tlines T st ds)).
-  destruct (first_line_not_blank st ds Hwf) as [q [tl [E Hq]]].
-  assert (Hgm : map (l_m) (group T 1 (phys (style_cr st) (tlines T st ds)) []) = tgroup (style_cr st) (tlines T st ds)).
-  { rewrite group_mgroup. apply mgroup_tagged; assumption. }
-  rewrite E in *. cbn [phys map].
-  assert (Hnb : is_blank_piece (untag q ++ style_cr st) = false).
-  { unfold is_blank_piece. cbn [forallb] in Hok_lines. apply andb_true_iff in Hok_lines as [Hq' _].
-    rewrite (classify_tagged (style_cr st) q Hcr Hq'). destruct q; [contradiction|reflexivity|reflexivity]. }
-  rewrite Hnb. cbn [phys map] in Hgm. rewrite Hgm. reflexivity.
+  intros Hst Hwf. destruct (wf_doc_items ds Hwf) as [Hitems _].
+  destruct (first_line_not_blank st ds Hwf) as [q [tl [E Hq]]]. rewrite render_text_of.
+  apply (parse_tagged _ _ q tl (style_cr_shape st) (tlines_ok st ds Hst Hitems) E Hq).
 Qed.
 
 Theorem parse_render_with st ds :
@@ -1278,9 +1305,186 @@ Proof.
   assert (Hcr : cr_ok (style_cr st)).
   { unfold cr_ok, style_cr. destruct (st_crlf st); [right; split; [reflexivity|apply Hcrlf; reflexivity]|left; reflexivity]. }
   unfold wf_doc_with in Hwf. destruct ds as [|it ds]; [discriminate|]. apply andb_true_iff in Hwf as [Hitems Hadj].
-  destruct (doc_run Hmerged st Hst (style_cr st) Hcr (it :: ds) Hitems Hadj [] None) as [LS [acc2 [pc2 [E [HR Hres]]]]].
-  { destruct it; cbn [item_pre]; auto. }
-  rewrite E. destruct (HR [] false 0%nat) as [ac' [j Hm]]. rewrite app_nil_r in Hm. cbn [fst snd] in Hm. rewrite Hm.
+  destruct (doc_run Hmerged st Hst (style_cr st) Hcr (it :: ds) Hitems Hadj [] None ltac:(destruct it; cbn [item_pre]; auto) [] eq_refl)
+    as [LS [acc2 [pc2 [E [HR Hres]]]]].
+  rewrite app_nil_r in E. cbn [tgroup] in E. rewrite app_nil_r in E.
+  unfold machine0. rewrite E. destruct (HR [] false 0%nat) as [ac' Hm]. rewrite app_nil_r in Hm. cbn [fst snd] in Hm. rewrite Hm.
   cbn [machine eof_dedents]. cbn [app opt_comment] in Hres. rewrite Hres. reflexivity.
+Qed.
+
+(* ------------------------------------------------------------------------------------------------------------------ *)
+(* C11: splitting the logical lines of a text at a physical line; positions *)
+
+Fixpoint tpeek_with (tl : list pline) (d : Z) : Z :=
+  match tl with [] => d | PBlank :: r => tpeek_with r d | PComment ind _ :: _ | PStmt ind _ :: _ => ws_width T ind end.
+Lemma tpeek_app tl1 tl2 : tpeek (tl1 ++ tl2) = tpeek_with tl1 (tpeek tl2).
+Proof. induction tl1 as [|[|ind t|ind c] tl1 IH]; cbn [app tpeek tpeek_with]; auto. Qed.
+
+Lemma add_comment_line_app p g x : g <> [] -> add_comment_line p (g ++ x) = add_comment_line p g ++ x.
+Proof. destruct g as [|[[lines|core] n] g]; [contradiction|reflexivity|reflexivity]. Qed.
+Lemma add_comment_pos_app ln c p g x : g <> [] -> add_comment_pos ln c p (g ++ x) = add_comment_pos ln c p g ++ x.
+Proof. destruct g as [|L g]; [contradiction|reflexivity]. Qed.
+
+(* tl2 does not continue a comment token of tl1 *)
+Definition no_merge (tl1 tl2 : list pline) : Prop := tnext_comment tl2 = false.
+
+Lemma tgroup_split cr tl1 : forall d, exists G1, forall tl2, tpeek tl2 = d -> tnext_comment tl2 = false ->
+  tgroup cr (tl1 ++ tl2) = G1 ++ tgroup cr tl2 /\ (tnext_comment tl1 = true -> G1 <> []).
+Proof.
+  induction tl1 as [|p tl1 IH]; intro d.
+  - exists []. intros tl2 _ _. split; [reflexivity|discriminate].
+  - destruct (IH d) as [G1 HG]. destruct p as [|ind t|ind c].
+    + exists G1. intros tl2 Hd Hn. destruct (HG tl2 Hd Hn) as [E _]. split; [exact E|discriminate].
+    + destruct (tnext_comment tl1) eqn:Hnc.
+      * exists (add_comment_line ((ind ++ t) ++ cr) G1). intros tl2 Hd Hn. destruct (HG tl2 Hd Hn) as [E Hne]. specialize (Hne eq_refl).
+        split.
+        -- cbn [app tgroup]. assert (Hnc' : tnext_comment (tl1 ++ tl2) = true) by (destruct tl1 as [|[] ?]; try discriminate; reflexivity).
+           rewrite Hnc', E. apply add_comment_line_app. exact Hne.
+        -- intros _. destruct G1 as [|[[lines|core] n] G1]; [contradiction|discriminate|discriminate].
+      * exists ({| m_body := MComment [(ind ++ t) ++ cr]; m_next := Some (tpeek_with tl1 d) |} :: G1). intros tl2 Hd Hn.
+        destruct (HG tl2 Hd Hn) as [E _]. split; [|discriminate].
+        cbn [app tgroup]. assert (Hnc' : tnext_comment (tl1 ++ tl2) = false).
+        { destruct tl1 as [|[] ?]; try discriminate; try reflexivity. exact Hn. }
+        rewrite Hnc', E, tpeek_app, Hd. reflexivity.
+    + exists ({| m_body := MStmt c; m_next := Some (tpeek_with tl1 d) |} :: G1). intros tl2 Hd Hn.
+      destruct (HG tl2 Hd Hn) as [E _]. split; [|discriminate]. cbn [app tgroup]. rewrite E, tpeek_app, Hd. reflexivity.
+Qed.
+
+Lemma group_split cr tl1 : cr_shape cr -> forallb pline_ok tl1 = true -> forall tl2 ln,
+  forallb pline_ok tl2 = true -> tnext_comment tl2 = false ->
+  exists GP1, group T ln (phys cr (tl1 ++ tl2)) [] = GP1 ++ group T (ln + Z.of_nat (length tl1)) (phys cr tl2) []
+    /\ (tnext_comment tl1 = true -> GP1 <> []).
+Proof.
+  intros Hcr. induction tl1 as [|p tl1 IH]; intros Hok1 tl2 ln Hok2 Hn.
+  - exists []. cbn [app length]. rewrite Z.add_0_r. split; [reflexivity|discriminate].
+  - cbn [forallb] in Hok1. apply andb_true_iff in Hok1 as [Hp Hok1].
+    destruct (IH Hok1 tl2 (ln + 1) Hok2 Hn) as [GP1 [E Hne]].
+    replace (ln + 1 + Z.of_nat (length tl1)) with (ln + Z.of_nat (length (p :: tl1))) in E by (cbn [length]; lia).
+    assert (Hall : forallb pline_ok (tl1 ++ tl2) = true) by (rewrite forallb_app, Hok1, Hok2; reflexivity).
+    cbn [app phys map group]. fold (phys cr (tl1 ++ tl2)). rewrite (classify_tagged cr p Hcr Hp).
+    rewrite peek_comment_tagged, peek_indent_tagged by assumption.
+    destruct p as [|ind t|ind c].
+    + exists GP1. split; [exact E|discriminate].
+    + destruct (tnext_comment tl1) eqn:Hnc.
+      * assert (Hnc' : tnext_comment (tl1 ++ tl2) = true) by (destruct tl1 as [|[] ?]; try discriminate; reflexivity).
+        rewrite Hnc', E. specialize (Hne eq_refl). eexists. split; [apply add_comment_pos_app; exact Hne|].
+        intros _. destruct GP1; [contradiction|discriminate].
+      * assert (Hnc' : tnext_comment (tl1 ++ tl2) = false) by (destruct tl1 as [|[] ?]; try discriminate; try reflexivity; exact Hn).
+        rewrite Hnc', E. eexists. split; [rewrite app_comm_cons; reflexivity|discriminate].
+    + rewrite E. eexists. split; [rewrite app_comm_cons; reflexivity|discriminate].
+Qed.
+
+Lemma group_head_stmt cr ind c tl ln : cr_shape cr -> forallb pline_ok (PStmt ind c :: tl) = true ->
+  exists L rest, group T ln (phys cr (PStmt ind c :: tl)) [] = L :: rest /\ l_line L = ln /\ l_col0 L = len ind + 1
+    /\ m_body (l_m L) = MStmt c.
+Proof.
+  intros Hcr Hok_l. cbn [forallb] in Hok_l. apply andb_true_iff in Hok_l as [Hp Htl].
+  cbn [phys map group]. rewrite (classify_tagged cr (PStmt ind c) Hcr Hp). eexists. eexists. split; [reflexivity|]. repeat split.
+Qed.
+
+(* --- an error in any logical line is never dropped *)
+Fixpoint mrun (st : pstate) (stack : list Z) (ac : bool) (i : nat) (ls : list mline) : mres (pstate * list Z * bool * nat) :=
+  match ls with
+  | [] => MOk (st, stack, ac, i)
+  | L :: rest =>
+    match deliver T st ac (m_body L) with
+    | SErr d => MErr i d
+    | SOk st1 =>
+      match m_next L with
+      | None => MErr i DNoNl
+      | Some w => match on_indent st1 stack w with
+                  | SErr d => MErr i d
+                  | SOk (st2, stack2) => mrun st2 stack2 (is_comment (m_body L)) (S i) rest
+                  end
+      end
+    end
+  end.
+
+Lemma machine_app l1 : forall st stack ac i l2,
+  machine T st stack ac i (l1 ++ l2) =
+  match mrun st stack ac i l1 with
+  | MOk (st', stack', ac', i') => machine T st' stack' ac' i' l2
+  | MErr j d => MErr j d
+  end.
+Proof.
+  induction l1 as [|L l1 IH]; intros st stack ac i l2; [reflexivity|].
+  cbn [app machine mrun]. destruct (deliver T st ac (m_body L)) as [st1|d]; [|reflexivity].
+  destruct (m_next L) as [w|]; [|reflexivity]. destruct (on_indent st1 stack w) as [[st2 stack2]|d]; [|reflexivity]. apply IH.
+Qed.
+
+Theorem machine_error_propagates st stack ac i l1 j d :
+  mrun st stack ac i l1 = MErr j d -> forall l2, machine T st stack ac i (l1 ++ l2) = MErr j d.
+Proof. intros H l2. rewrite machine_app, H. reflexivity. Qed.
+
+Theorem machine_success_ran_every_line st stack ac i ls v :
+  machine T st stack ac i ls = MOk v -> forall l1 l2, ls = l1 ++ l2 -> exists s, mrun st stack ac i l1 = MOk s.
+Proof.
+  intros H l1 l2 ->. rewrite machine_app in H. destruct (mrun st stack ac i l1) as [s|j d]; [exists s; reflexivity|discriminate].
+Qed.
+
+(* --- a statement line that the top-level parser rejects, anywhere a top-level statement may start *)
+Definition zlen {A} (l : list A) : Z := Z.of_nat (length l).
+
+Lemma comment_ls_length cr ind c n : wf_comment T c = true -> length (comment_ls cr ind c n) = match c with Some _ => 1%nat | None => 0%nat end.
+Proof. destruct c; reflexivity. Qed.
+
+Theorem bad_top_line st pre cmt c' s tl_rest :
+  comment_merged T = false -> cr_ok (style_cr st) -> wf_style st = true ->
+  forallb (wf_item T) pre = true -> wf_adjacent pre = true -> wf_comment T cmt = true ->
+  pline_ok (PStmt [] c') = true -> forallb pline_ok tl_rest = true ->
+  (forall ac, parse_top_line T None ac c' = LErr s) ->
+  parse_with T (text_of (style_cr st) (tlines T st pre ++ comment_tlines [] cmt ++ PStmt [] c' :: tl_rest))
+  = Error {| e_line := 1 + zlen (tlines T st pre) + zlen (clines cmt); e_col := 1 + len c' - len s; e_kind := EToken |}.
+Proof.
+  intros Hmerged Hcr Hst Hpre Hadj Hcmt Hc' Hrest Hbad.
+  set (cr := style_cr st). set (r1 := comment_tlines [] cmt ++ PStmt [] c' :: tl_rest).
+  set (tl2 := PStmt [] c' :: tl_rest).
+  assert (Hshape : cr_shape cr) by apply style_cr_shape.
+  assert (Hok1 : forallb pline_ok (tlines T st pre ++ comment_tlines [] cmt) = true).
+  { rewrite forallb_app, (tlines_ok st pre Hst Hpre), comment_tlines_ok by reflexivity. reflexivity. }
+  assert (Hok2 : forallb pline_ok tl2 = true) by (subst tl2; cbn [forallb]; rewrite Hc', Hrest; reflexivity).
+  assert (Hall : forallb pline_ok (tlines T st pre ++ r1) = true).
+  { subst r1. rewrite app_assoc, forallb_app, Hok1. exact Hok2. }
+  assert (Hfirst : exists q tl', tlines T st pre ++ r1 = q :: tl' /\ q <> PBlank).
+  { destruct pre as [|it pre'].
+    - subst r1. cbn [tlines flat_map app]. unfold comment_tlines. destruct (clines cmt) as [|t ts]; cbn [map app].
+      + eexists. eexists. split; [reflexivity|discriminate].
+      + eexists. eexists. split; [reflexivity|discriminate].
+    - destruct (first_line_not_blank st (it :: pre')) as [q [tl' [E Hq]]].
+      + unfold wf_doc_with. rewrite Hpre, Hadj. reflexivity.
+      + rewrite E. eexists. eexists. split; [reflexivity|exact Hq]. }
+  destruct Hfirst as [q [tl' [E Hq]]].
+  rewrite (parse_tagged cr _ q tl' Hshape Hall E Hq).
+  (* the run of the automaton *)
+  assert (Hpeek : tpeek r1 = 0).
+  { subst r1. unfold comment_tlines. destruct (clines cmt); reflexivity. }
+  destruct (doc_run Hmerged st Hst cr Hcr pre Hpre Hadj [] None ltac:(destruct pre as [|[] ?]; cbn [item_pre]; auto) r1 Hpeek)
+    as [LS [acc2 [pc2 [EG [HR _]]]]].
+  assert (EG1 : tgroup cr r1 = comment_ls cr [] cmt 0 ++ ml (MStmt c') (tpeek tl_rest) :: tgroup cr tl_rest).
+  { subst r1. rewrite tgroup_comment_opt; [|reflexivity|apply wf_comment_clines; exact Hcmt].
+    unfold comment_ls. destruct cmt; reflexivity. }
+  assert (Hmach : machine0 (tgroup cr (tlines T st pre ++ r1)) = MErr (length LS + length (comment_ls cr [] cmt 0)) (DStmt (length s))).
+  { unfold machine0. rewrite EG, EG1.
+    destruct (HR (comment_ls cr [] cmt 0 ++ ml (MStmt c') (tpeek tl_rest) :: tgroup cr tl_rest) false 0%nat) as [ac1 E1].
+    cbn [fst snd] in E1. rewrite E1.
+    destruct (reach_comment_ls_top cr Hcr acc2 pc2 cmt Hcmt (ml (MStmt c') (tpeek tl_rest) :: tgroup cr tl_rest) ac1 (0 + length LS)%nat) as [ac2 E2].
+    cbn [fst snd] in E2. rewrite E2. cbn [machine ml m_body deliver on_stmt pa_ctx]. rewrite Hbad. cbn [of_lres sbind]. reflexivity. }
+  rewrite Hmach.
+  (* the position *)
+  assert (Hn2 : tnext_comment tl2 = false) by reflexivity.
+  destruct (group_split cr _ Hshape Hok1 tl2 1 Hok2 Hn2) as [GP1 [EGP _]].
+  destruct (group_head_stmt cr [] c' tl_rest (1 + Z.of_nat (length (tlines T st pre ++ comment_tlines [] cmt))) Hshape Hok2) as [L [rest' [EL [HL1 [HL2 HL3]]]]].
+  assert (Hgroup : group T 1 (phys cr (tlines T st pre ++ r1)) [] = GP1 ++ L :: rest').
+  { subst r1. rewrite app_assoc. fold tl2. rewrite EGP. fold tl2 in EL. rewrite EL. reflexivity. }
+  assert (Hlen : length GP1 = (length LS + length (comment_ls cr [] cmt 0))%nat).
+  { assert (M1 : map l_m (GP1 ++ L :: rest') = tgroup cr (tlines T st pre ++ r1)).
+    { rewrite <- Hgroup, group_mgroup. apply mgroup_tagged; assumption. }
+    assert (M2 : map l_m (L :: rest') = tgroup cr tl2).
+    { rewrite <- EL, group_mgroup. apply mgroup_tagged; assumption. }
+    rewrite map_app, M2, EG, EG1 in M1. apply (f_equal (@length mline)) in M1.
+    rewrite !app_length, map_length in M1. cbn [tl2 tgroup length] in M1. cbn [length] in M1. lia. }
+  rewrite Hgroup, <- Hlen. unfold pos_of. rewrite nth_error_app2, Nat.sub_diag by lia. cbn [nth_error]. rewrite HL3, HL1, HL2.
+  Show.
+  f_equal. f_equal; unfold zlen, len, comment_tlines; rewrite ?app_length, ?map_length; cbn [length]; lia.
 Qed.
 End Proofs2.
